@@ -119,7 +119,8 @@ def to_timedelta(obj, numbers_as=None):
 
     if isinstance(obj, timedelta):
         return obj
-    elif isinstance(obj, Number):
+    elif isinstance(obj, Number) and not isinstance(obj, np.timedelta64):
+        # (numpy.timedelta64 is registered as a number but carries its unit)
         return timedelta(**{numbers_as: float(obj)})
     else:
         return pd.to_timedelta(obj).to_pytimedelta()
